@@ -60,7 +60,7 @@ def effects(ctx, name):
                 pre = v
             elif t[0] == "atomic_result" and t[1] == "load":
                 gcase = v            # the path depends on the value just loaded from the global flag
-            elif t[0] == "discr" and t[1] == ("field", ("param", 0, "state"), "flag"):
+            elif t[0] == "discr" and t[1] == ("field", ("param", 0, "a0"), "flag"):
                 pcase = v            # the path depends on the saved flag passed to restore
             else:
                 raise AnchorError(f"{key}: branches on {T.show(t)}, which is neither the local override, the loaded global flag nor the saved flag")
@@ -173,7 +173,7 @@ def r3(ctx):
         if len(hit) != 1:
             raise AnchorError(f"restore: {len(hit)} paths for saved flag {saved}")
         r = hit[0]
-        ok = r["writes"] in ([("field", ("param", 0, "state"), "flag")], [flag(saved)]) and not r["atomics"]
+        ok = r["writes"] in ([("field", ("param", 0, "a0"), "flag")], [flag(saved)]) and not r["atomics"]
         ctx.ob(f"restore[{saved}]", ok, f"restore of a saved {saved} writes {[T.show(w) for w in r['writes']] or 'nothing'} / {r['atomics']}; expected exactly the saved flag "
                f"(whatever the override currently is)", site=site, sample={"saved": saved, "writes": [T.show(w) for w in r["writes"]]})
 
